@@ -44,6 +44,10 @@ def apply_pins(ep, args):
         ep.module_import = True
     if args.get('str_keys'):
         ep.str_keys = True
+    if args.get('obj_full'):
+        ep.obj_full = True
+    if args.get('pat_full'):
+        ep.pat_full = True
     if args.get('private_names'):
         ep.private_names = True
     return ep
@@ -240,6 +244,20 @@ def make_scenario(name, args):
 DETERMINISM_Q = dict(scenario='determinism', args=dict(policy=stmt_profile([['Block'], ['Expr'], ['Expr']], [['OptChain', 'Bin', 'Ident'], ['OptChain', 'Ident', 'Member'], ['Ident']], bin_ops=['Add'], names=['a', '__datadog_test_7'], props=['substring'], params=(0,), block_lens=(1, 2), max_args=(0, 0, 0), op_budget=3, all_present=True),
                                                        config=[dict(src='plusOperator', dst=None, operator=True, awc=False), dict(src='tplOperator', dst=None, operator=True, awc=False), dict(src='substring', dst='stringSubstring', operator=False, awc=False)]),
                      label='two runs of the block visitor on the same program with opposite hash-container iteration orders: blocks of 1-2 expression statements with sums and optional chains over `substring`; identifiers may carry the reserved prefix; debug telemetry')
+
+# object literals with computed keys, spreads, shorthands and methods (bodies hold operations)
+OBJECTS_Q = dict(scenario='program', args=dict(policy=stmt_profile([['Block'], ['Decl:Var', 'Expr'], ['Return', 'Expr']], [['Object', 'Paren'], ['Object', 'Bin', 'Ident'], ['Bin', 'Ident', 'Call'], ['Ident']], bin_ops=['Add'], names=['a'], props=['substring'], max_args=(0, 0, 0, 0), params=(0,), op_budget=3, all_present=True, spread=False),
+                                       obj_full=True, kinds=('Script',)),
+                 label='object literals (as initialiser, argument, parenthesised statement) with identifier / computed keys, spread and shorthand properties and methods whose bodies hold operations')
+for p in ('C02', 'C03', 'C04', 'C06', 'C12', 'C15'):
+    PLANS[p]['thorough'] = PLANS[p]['thorough'] + [OBJECTS_Q]
+
+# destructuring declarations and parameters with defaults that hold operations
+PATTERNS_Q = dict(scenario='program', args=dict(policy=stmt_profile([['Block', 'Decl:Fn'], ['Decl:Var', 'Return'], ['Return']], [['Bin', 'Ident', 'Call', 'Arrow'], ['Ident', 'Call'], ['Ident']], bin_ops=['Add'], names=['a'], props=['substring'], max_args=(0, 0, 0), params=(0, 1), op_budget=2, all_present=True, spread=False),
+                                        pat_full=True, kinds=('Script',)),
+                  label='blocks / functions with destructuring declarations (`let [a, b = x + y] = z`, `const {k: v = f() + g, w = x + y} = z`) and destructuring parameters whose defaults hold operations')
+for p in ('C02', 'C04', 'C06', 'C12', 'C15'):
+    PLANS[p]['thorough'] = PLANS[p]['thorough'] + [PATTERNS_Q]
 
 # modules that start with an import declaration
 MODULE_Q = dict(scenario='program', args=dict(policy=stmt_profile([['Block', 'Decl:Fn', 'Expr'], ['Return', 'Expr']], [['Bin', 'Ident', 'Lit'], ['Ident']], bin_ops=['Add'], names=['a'], strs=['use strict', 'x'], quotes=["'"], directives=1, items=(1, 2), params=(0,), op_budget=1, all_present=True), kinds=('Module', 'Script'), module_import=True),
